@@ -152,10 +152,9 @@ func TestVReplay(t *testing.T) {
 	cmd := exec.Command(binPath, "-test.v", "-test.run", "^TestVReplay$", "-test.timeout", fmt.Sprintf("%ds", int(timeout.Seconds())))
 	cmd.Dir = work
 	cmd.Env = append(os.Environ(), "VSYM_REPLAY_LIST="+listPath, fmt.Sprintf("VSYM_REPEAT=%d", repeat))
-	if race {
-		// threaded harnesses: a deadlocked replay is cut off on its own
-		cmd.Env = append(cmd.Env, "VSYM_HANG_SECS=20")
-	}
+	// a replay that deadlocks or spins is cut off on its own and reported as
+	// "timeout"; the following replays still run
+	cmd.Env = append(cmd.Env, "VSYM_HANG_SECS=20")
 	var out bytes.Buffer
 	cmd.Stdout = &out
 	cmd.Stderr = &out
@@ -402,6 +401,8 @@ func cmdCheck(args []string) {
 				nViol++
 				fmt.Printf("VIOLATION property=%s replay=%s\n", id, files[i])
 				fmt.Printf("  %s %s at %s: %s (native: %s %s)\n  choices=%v\n", v.Kind, v.Label, v.Site, v.Msg, nr.Status, nr.Msg, v.Choices)
+			} else if v.Kind == "hang" {
+				fmt.Printf("UNWINDING-LIMIT property=%s harness=%s %s: the loop did not end within the unwinding limit but the native run completes (native: %s); bound too small, not a violation\n", id, hr.spec.Name, v.Label, nr.Status)
 			} else {
 				mismatches++
 				fmt.Printf("ENCODER-MISMATCH property=%s harness=%s label=%s: counterexample did not reproduce natively (native: %s %s); not reported as a violation\n", id, hr.spec.Name, v.Label, nr.Status, nr.Msg)
